@@ -1406,6 +1406,8 @@ class Context:
                         obj.set(str(k), self._to_js(v, _memo))
                     return obj
                 arr = JSArray()
+                # (inherits from this context's Array.prototype, like a literal)
+                arr._prototype = getattr(self._globals.get("Array"), "_prototype", None)
                 _memo[id(value)] = arr
                 for elem in value:
                     arr.push(self._to_js(elem, _memo))
